@@ -153,6 +153,9 @@ func c02Body(p c02Params, paths []string, dir string) (string, string) {
 func c02Scenario(p c02Params) *explore.Scenario {
 	paths, dir := c02Setup(p)
 	sc := &explore.Scenario{Name: "c02", Params: p.String(), MaxSteps: 400000, Horizon: 90*time.Second + 2*p.Stall, Demotion: true}
+	if p.D < 0 {
+		sc.MaxSteps = 20000000
+	}
 	sc.Run = func(cfg vrt.Config) (string, string, vrt.Result) {
 		var out, viol string
 		var hooks []vrt.HookEvent
@@ -312,6 +315,8 @@ func c02ParamSets(tier string) (ps []c02Params, d int) {
 			{Kind: "cat", Files: []int{1, 2}, Glob: true, CatLimit: 1, ReadDelayMs: 3100, D: 1},
 			{Kind: "grep", Files: []int{3}, CatLimit: 2, Max: 2, After: 1, ReadDelayMs: 5200, D: 1},
 			{Kind: "cat", Files: []int{3}, CatLimit: 2, Stall: 61 * time.Second, StallAt: 3, D: 1},
+			{Kind: "cat", Files: []int{3000}, CatLimit: 2, Stall: 4 * time.Second, StallAt: 150, D: -1},
+			{Kind: "grep", Files: []int{1500, 700}, Glob: true, CatLimit: 1, Max: 1200, After: 2, Stall: 2 * time.Second, StallAt: 50, D: -1},
 			{Kind: "cat", Files: []int{1, 1, 1}, Glob: true, CatLimit: 1, D: 1},
 			{Kind: "cat", Files: []int{1, 0, 1, 1, 2}, Glob: true, CatLimit: 2, D: 1},
 			{Kind: "cat", Files: []int{1, 2}, Glob: true, CatLimit: 1, Refused: true, D: 1},
@@ -348,7 +353,7 @@ func init() {
 		ID:    "C02",
 		Level: "model_checking",
 		Rule: "stateless exploration of all schedules within a deviation bound (quick 1, thorough 2; deviations = preemption, non-first ready select case, demotion of a goroutine) of one complete dcat/dgrep session: " +
-			"the real client main body, serverless connector, server handler, read commands, readers and client handler; sessions of 1-3 files (and one of 5 files: more than twice the limit queue) with 0-2 lines (plus 100/101 lines around the queue capacity), one command per file or one glob, " +
+			"the real client main body, serverless connector, server handler, read commands, readers and client handler; sessions of 1-3 files (and one of 5 files: more than twice the limit queue) with 0-2 lines (plus 100/101 lines around the queue capacity and, on the canonical schedule, files of 700-3000 lines with a stalling consumer), one command per file or one glob, " +
 			"cat limit 1-2, grep with max/after, globs that also match a directory, a dangling link and a file the permission rules deny, consumer eager or stalled 50 ms..6 s before the k-th write; oracle: per file exactly its selected lines once and in order, exit status 0, termination before the horizon; " +
 			"plus a 4-file session whose command stream is delivered in segments of 1..32768 bytes through a re-used transport buffer (as an SSH channel does); distinct = distinct (scenario, stdout+status) outcomes",
 		Assumptions: []string{
@@ -375,6 +380,9 @@ func init() {
 				dd := d
 				if p.D > 0 {
 					dd = p.D
+				}
+				if p.D < 0 {
+					dd = 0 // canonical schedule only (long executions)
 				}
 				c.Explore(c02Scenario(p), dd, c02Sig)
 				c.Sample(map[string]interface{}{"scenario": p.String(), "deviation_bound": d})
